@@ -201,7 +201,8 @@ NEUTRAL_CHECKS = {"C03": ["C03", "C04", "C14", "C18"], "C05": ["C05", "C06", "C0
                    "C07": ["C07", "C05", "C17"], "C09": ["C09", "C10", "C11"],
                   "C10": ["C10", "C09", "C11"], "C12": ["C12", "C14", "C11"], "C14": ["C14", "C03", "C12", "C05"], "C16": ["C16", "C15"],
                   "C19": ["C19"], "C20": ["C20"],
-                  "C01": ["C01", "C02", "C03", "C17"], "C02": ["C02", "C01", "C08", "C17"], "C04": ["C04", "C03", "C14", "C18"], "C06": ["C06", "C05", "C07", "C17"],
+                  "C01": ["C01", "C03", "C17"],   # not C02: the set replaces the 1e-6 cut-off by the true exponential, 1e-7 away from the reference (a real C02 break)
+                   "C02": ["C02", "C01", "C08", "C17"], "C04": ["C04", "C03", "C14", "C18"], "C06": ["C06", "C05", "C07", "C17"],
                   "C08": ["C08", "C02", "C14", "C17"], "C11": ["C11", "C10", "C09", "C12"], "C13": ["C13", "C05", "C06"], "C15": ["C15", "C16"],
                   "C17": ["C17", "C01", "C02", "C09", "C05"], "C18": ["C18", "C14", "C04", "C10"]}
 for meta in sorted(glob.glob(os.path.join(_here, "neutral", "*", "meta.json"))):
